@@ -422,6 +422,8 @@ class History:
                     return Req(k='seq', ids=[start, cur])      # cur would depend on start, but start already reaches cur
             if len(pool) >= n and rng.random() < 0.7:
                 ids = rng.sample(pool, n)                      # distinct live items of one kind (may still close a cycle)
+                if n >= 2 and rng.random() < 0.12:
+                    ids.append(ids[rng.randrange(len(ids) - 1)])   # a chain that closes on itself inside ONE command
                 if rng.random() < 0.15:
                     ids[rng.randrange(n)] = self.some_id(kk)   # one adversarial id
             else:
@@ -439,7 +441,7 @@ class History:
             return Req(k='prune', yes=rng.random() < 0.7, agent=agent)
         if kind == 'compact':
             return Req(k='compact')
-        which = rng.choice(['badjson', 'unknownkey', 'twovalues', 'emptystdin', 'noargs'])
+        which = rng.choice(['badjson', 'unknownkey', 'twovalues', 'emptystdin', 'noargs', 'trailing', 'trailing'])
         tgt = ['new', 'task'] if rng.random() < 0.5 else ['set', self.some_id('task')]
         if which == 'badjson':
             return Req(k='malformed', args=tgt, stdin=b'{"title": "x"')
@@ -447,6 +449,8 @@ class History:
             return Req(k='malformed', args=tgt, stdin=b'{"title":"x","titel":"y"}')
         if which == 'twovalues':
             return Req(k='malformed', args=tgt, stdin=b'{"title":"x"} {"title":"y"}')
+        if which == 'trailing':
+            return Req(k='malformed', args=tgt, stdin=rng.choice([b'{"title":"x"}}', b'{"title":"x"}]', b'{"title":"x"} }{"title":"y"}', b'{"title":"x"}\n]']))
         if which == 'emptystdin':
             return Req(k='malformed', args=tgt, stdin=b'')
         return Req(k='malformed', args=['sequence', self.some_id()], stdin=None)
